@@ -39,3 +39,18 @@ package values
 //@   env ComputationMeteringError
 //@   ensures[C18] result == ite(num(v) < num(other), -1, ite(num(v) > num(other), 1, 0))
 //@ schema values_int_cmp()
+
+// ---- big-endian byte helpers (used by the 128/256-bit shifts, C14, and by byte conversion, C17).
+// Assumed for now (bodies loop over the bytes); beval(s) is the unsigned big-endian value of s.
+//@ func SignedBigIntToSizedBigEndianBytes
+//@   assumed
+//@   requires bigInt != nil
+//@   requires sizeInBytes <= 64 && -pow2n(8 * sizeInBytes - 1, 520) <= big(bigInt) && big(bigInt) < pow2n(8 * sizeInBytes, 520)
+//@   ensures len(result) == sizeInBytes && beval(result) == emod(big(bigInt), pow2n(8 * sizeInBytes, 520))
+//@ func BigEndianBytesToSignedBigInt
+//@   assumed
+//@   requires len(b) <= 64
+//@   modifies mem(b)
+//@   let u = old(beval(b))
+//@   let n = len(b)
+//@   ensures fresh(result) && big(result) == ite(n == 0, 0, ite(u >= pow2n(8 * n - 1, 520), u - pow2n(8 * n, 520), u))
